@@ -14,9 +14,11 @@ import (
 	"fmt"
 	"io"
 	"log"
+	"math"
 	"os"
 	"runtime"
 	"sort"
+	"strconv"
 	"strings"
 	"time"
 
@@ -32,7 +34,19 @@ type K int64
 // replayable) use a comparator that returns the difference of the keys instead of -1/0/+1.
 var cmpDiff bool
 
+// cmpExtreme: the magnitudes are the extremes of int (a change that negates, decrements or
+// narrows the comparator's result shows)
+var cmpExtreme bool
+
 func cmpIDs(a, b int64) int {
+	if cmpExtreme {
+		if a < b {
+			return math.MinInt
+		} else if a > b {
+			return math.MaxInt
+		}
+		return 0
+	}
 	if cmpDiff {
 		return int(a - b)
 	}
@@ -125,6 +139,8 @@ const (
 	opIterNext     = 32
 	opIterRemove   = 33
 	opIterSetValue = 34
+	opIterNewAt    = 35
+	opForeachPut   = 27
 	opProbe        = 40
 	opSetValueAt   = 41
 	opEntryEquals  = 42
@@ -143,21 +159,62 @@ type iter struct {
 	lastKey *int64
 }
 
-// Values are int64 or the untyped nil: nil travels through the case format as the reserved
-// integer nilCode (coq/C10/Run.v nil_code).  Where the API cannot tell "no value" from "the value
-// nil" (Put's and SetValue's previous value) both are written (); Run.v encodes the model's
-// answer the same way for exactly those operations.
-const nilCode = -999999999
+// Values are part of the input domain.  A value code v >= 0 becomes, by v mod 5, an int64, a
+// string, a struct, a pointer to a struct or a (non-comparable) slice holding v; negative codes
+// are int64; nilCode is the untyped nil and typedNilCode a typed nil pointer (which is != nil as
+// an interface).  vOf maps every value back to its code.  Where the API cannot tell "no value"
+// from "the value nil" (Put's and SetValue's previous value) both are written (); Run.v encodes
+// the model's answer the same way for exactly those operations.
+const (
+	nilCode      = -999999999
+	typedNilCode = -999999998
+)
+
+type vStruct struct{ v int64 }
+type vBox struct{ v int64 }
 
 func vOf(v interface{}) int64 {
-	if v == nil {
+	switch x := v.(type) {
+	case nil:
 		return nilCode
+	case int64:
+		return x
+	case string:
+		n, err := strconv.ParseInt(x, 10, 64)
+		if err != nil {
+			panic("c10: foreign string value")
+		}
+		return n
+	case vStruct:
+		return x.v
+	case *vBox:
+		if x == nil {
+			return typedNilCode
+		}
+		return x.v
+	case []int64:
+		return x[0]
 	}
-	return v.(int64)
+	panic("c10: foreign value type")
 }
 func toVal(v int64) interface{} {
-	if v == nilCode {
+	switch {
+	case v == nilCode:
 		return nil
+	case v == typedNilCode:
+		return (*vBox)(nil)
+	case v < 0:
+		return v
+	}
+	switch v % 5 {
+	case 1:
+		return strconv.FormatInt(v, 10)
+	case 2:
+		return vStruct{v}
+	case 3:
+		return &vBox{v}
+	case 4:
+		return []int64{v}
 	}
 	return v
 }
@@ -218,6 +275,36 @@ func newIter(m *treemap.Map, kind int64) *iter {
 		return w
 	case 4:
 		it := m.ValueIterator()
+		return &iter{hasNext: it.HasNext, next: func() Sx { return Ints(vOf(it.Next())) }, remove: func() { it.Remove() }}
+	}
+	return nil
+}
+
+// the exported constructors: an iterator that starts at the given entry (nil: exhausted)
+func newIterAt(m *treemap.Map, kind int64, e *treemap.Entry) *iter {
+	switch kind {
+	case 0:
+		it := treemap.NewEntryIterator(m, e)
+		w := &iter{hasNext: it.HasNext, remove: func() { it.Remove() }}
+		w.next = func() Sx { e := it.Next(); w.sawEntry(m, e); return optEntry(e) }
+		return w
+	case 1:
+		it := treemap.NewKeyDescendingEntryIterator(m, e)
+		w := &iter{hasNext: it.HasNext, remove: func() { it.Remove() }}
+		w.next = func() Sx { e := it.Next(); w.sawEntry(m, e); return optEntry(e) }
+		return w
+	case 2:
+		it := treemap.NewKeyIterator(m, e)
+		w := &iter{hasNext: it.HasNext, remove: func() { it.Remove() }}
+		w.next = func() Sx { k := it.Next(); w.sawKey(k); return optKey(k) }
+		return w
+	case 3:
+		it := treemap.NewDescendingKeyIterator(m, e)
+		w := &iter{hasNext: it.HasNext, remove: func() { it.Remove() }}
+		w.next = func() Sx { k := it.Next(); w.sawKey(k); return optKey(k) }
+		return w
+	case 4:
+		it := treemap.NewValueIterator(m, e)
 		return &iter{hasNext: it.HasNext, next: func() Sx { return Ints(vOf(it.Next())) }, remove: func() { it.Remove() }}
 	}
 	return nil
@@ -334,7 +421,7 @@ func apply(m *treemap.Map, its *[nSlots]*iter, op Sx, st *stats) Sx {
 		return List(Ints(8))
 	}
 	switch code {
-	case opKeys, opValues, opInOrder, opPreOrder, opPostOrder, opForeach, opForeachRemove:
+	case opKeys, opValues, opInOrder, opPreOrder, opPostOrder, opForeach, opForeachRemove, opForeachPut:
 		if !intact(m) {
 			st.corrupted = true
 			return List(Ints(8))
@@ -451,6 +538,32 @@ func apply(m *treemap.Map, its *[nSlots]*iter, op Sx, st *stats) Sx {
 			its[slot] = it
 		}
 		return List()
+	case opIterNewAt:
+		slot := arg(2)
+		if slot < 0 || slot >= nSlots {
+			return List()
+		}
+		if it := newIterAt(m, arg(1), access(m, arg(3), arg(4))); it != nil {
+			its[slot] = it
+		}
+		return List()
+	case opForeachPut:
+		var l []Sx
+		idx := int64(0)
+		panicked, _ := Catch(func() {
+			m.Foreach(func(k treemap.KeyType, v interface{}) {
+				l = append(l, Int(kOf(k)), Int(vOf(v)))
+				if idx == arg(1) {
+					before := m.Size()
+					m.Put(mkKey(arg(2)), toVal(arg(3)))
+					if m.Size() != before {
+						st.mutations++
+					}
+				}
+				idx++
+			})
+		})
+		return List(ListOf(l), Bool(panicked))
 	case opIterHasNext, opIterNext, opIterRemove:
 		slot := arg(1)
 		if slot < 0 || slot >= nSlots || its[slot] == nil {
@@ -557,13 +670,57 @@ func runOnce(in Sx, limit time.Duration) ([]Sx, stats, bool) {
 	partial := make(chan Sx, in.Len()+1)
 	cmpDiff = in.Len()%2 == 0
 	keyKind = []int{0, 0, 1, 2}[in.Len()%4]
+	cmpExtreme = in.Len()%4 == 3
 	go func() {
 		m := treemap.New()
+		if (in.Len()/8)%2 == 1 {
+			m = new(treemap.Map) // the zero value is a usable empty map
+		}
+		// a second map alive in the same goroutine, mutated and iterated between the recorded
+		// operations (nothing of it is recorded: the maps must be independent)
+		var decoy *treemap.Map
+		var dit *treemap.EntryIterator
+		if (in.Len()/4)%2 == 0 {
+			decoy = treemap.New()
+		}
 		var its [nSlots]*iter
 		st := stats{br: rec{}}
 		outs := make([]Sx, 0, in.Len())
 		for i := 0; i < in.Len(); i++ {
 			op := in.At(i)
+			if decoy != nil && (in.Len()/16)%2 == 0 {
+				// mirror mode: the same structural operation with another value first on the decoy
+				// (equal shapes and modification counters in two maps)
+				Catch(func() {
+					switch op.At(0).Int64() {
+					case opPut:
+						decoy.Put(mkKey(op.At(1).Int64()), toVal(int64(1000+i)))
+					case opRemove:
+						decoy.Remove(mkKey(op.At(1).Int64()))
+					case opClear:
+						decoy.Clear()
+					}
+				})
+			} else if decoy != nil {
+				Catch(func() {
+					decoy.Put(mkKey(int64(i%13)), toVal(int64(i)))
+					if i%3 == 0 {
+						decoy.Remove(mkKey(int64((i * 7) % 13)))
+					}
+					if i%5 == 0 {
+						dit = decoy.Iterator()
+					}
+					if dit != nil && dit.HasNext() {
+						dit.Next()
+						if i%2 == 0 {
+							dit.Remove()
+						}
+					}
+					if i%17 == 0 {
+						decoy.Clear()
+					}
+				})
+			}
 			var r Sx
 			panicked, _ := Catch(func() { r = apply(m, &its, op, &st) })
 			if panicked {
@@ -629,23 +786,39 @@ func main() {
 type hist struct {
 	ops    []Sx
 	rng    *Rng
-	lo, hi int64 // key universe [lo, hi)
-	probeP int   // percent: probe after a mutation
+	lo, hi int64   // key universe [lo, hi)
+	probeP int     // percent: probe after a mutation
+	pool   []int64 // if set: the keys to draw from (extreme-key class)
 	vals   int64
 }
 
 func (h *hist) add(code int64, args ...int64) {
 	h.ops = append(h.ops, Ints(append([]int64{code}, args...)...))
 }
-func (h *hist) key() int64 { return h.lo + int64(h.rng.Intn(int(h.hi-h.lo))) }
+func (h *hist) key() int64 {
+	if h.pool != nil {
+		return h.pool[h.rng.Intn(len(h.pool))]
+	}
+	return h.lo + int64(h.rng.Intn(int(h.hi-h.lo)))
+}
 
 // a key from the universe or just outside it (absent neighbours at both ends)
-func (h *hist) qkey() int64 { return h.lo - 2 + int64(h.rng.Intn(int(h.hi-h.lo)+4)) }
+func (h *hist) qkey() int64 {
+	if h.pool != nil {
+		return h.key()
+	}
+	return h.lo - 2 + int64(h.rng.Intn(int(h.hi-h.lo)+4))
+}
 
 // mostly fresh values; one in four from {1,2,3} so that different keys share a value
 func (h *hist) val() int64 {
-	if h.rng.Intn(10) == 0 {
+	switch h.rng.Intn(20) {
+	case 0, 1:
 		return nilCode // the untyped nil is a legal value
+	case 2:
+		return typedNilCode // so is a typed nil pointer
+	case 3:
+		return 0 // and the zero value
 	}
 	if h.rng.Intn(4) == 0 {
 		return 1 + int64(h.rng.Intn(3))
@@ -715,6 +888,13 @@ func (h *hist) build(order string, n int) {
 
 func (h *hist) randomOp() {
 	r := h.rng
+	if n := len(h.ops); n > 0 && r.Intn(100) < 6 {
+		// the same query (or the same Put: the same value re-put) twice in a row
+		if c := h.ops[n-1].At(0).Int64(); c == opPut || (c >= opGet && c <= opForeach) {
+			h.ops = append(h.ops, h.ops[n-1])
+			return
+		}
+	}
 	w := r.Intn(100)
 	switch {
 	case w < 24:
@@ -759,14 +939,19 @@ func (h *hist) randomOp() {
 		h.add(opPostOrder)
 	case w < 81:
 		h.add(opForeach)
-	case w < 83:
+	case w < 82:
 		h.add(opForeachRemove, int64(r.Intn(int(h.hi-h.lo)+1)), h.key())
+		h.maybeProbe()
+	case w < 83:
+		h.add(opForeachPut, int64(r.Intn(int(h.hi-h.lo)+1)), h.key(), h.val())
 		h.maybeProbe()
 	case w < 84:
 		h.add(opClear)
 		h.maybeProbe()
-	case w < 87:
+	case w < 86:
 		h.add(opIterNew, int64(r.Intn(5)), int64(r.Intn(nSlots)))
+	case w < 87:
+		h.add(opIterNewAt, int64(r.Intn(5)), int64(r.Intn(nSlots)), int64(r.Intn(6)), h.qkey())
 	case w < 89:
 		h.add(opIterHasNext, int64(r.Intn(nSlots)))
 	case w < 95:
@@ -791,7 +976,11 @@ func (h *hist) finish() {
 // iterate with kind in slot, removing through the iterator according to policy:
 // 0 nothing, 1 every entry, 2 at random, 3 every second call
 func (h *hist) iterate(kind int64, slot int64, policy int, steps int) {
-	h.add(opIterNew, kind, slot)
+	if h.rng.Intn(4) == 0 {
+		h.add(opIterNewAt, kind, slot, int64(h.rng.Intn(6)), h.qkey()) // New*Iterator(m, entry)
+	} else {
+		h.add(opIterNew, kind, slot)
+	}
 	for i := 0; i < steps; i++ {
 		h.add(opIterHasNext, slot)
 		h.add(opIterNext, slot)
@@ -853,7 +1042,7 @@ func gen(a Args, out *Out) {
 			branches[b] += n
 		}
 		out.CountN("SetValue on live entries", st.setValues)
-		out.Count([]string{"key kind: int64, difference comparator", "key kind: int64, -1/0/+1", "key kind: struct{id,tag} compared on id (fresh tag per call), difference comparator", "key kind: pointer compared on *id (fresh pointer per call), -1/0/+1"}[in.Len()%4])
+		out.Count([]string{"key kind: int64, difference comparator", "key kind: int64, -1/0/+1", "key kind: struct{id,tag} compared on id (fresh tag per call), difference comparator", "key kind: pointer compared on *id (fresh pointer per call), MinInt/0/MaxInt"}[in.Len()%4])
 		if st.corrupted {
 			out.Count("histories with a corrupted structure (parent links / node count)")
 		}
@@ -922,6 +1111,10 @@ func gen(a Args, out *Out) {
 				steps = h.rng.Intn(n + 1) // abandon the iterator early
 			}
 			h.iterate(kind, 0, policy, steps)
+			for i := 0; i < 3; i++ { // the map is used again after the (partial) drain
+				h.add(opPut, h.key(), h.val())
+			}
+			h.add(opProbe)
 			h.finish()
 			emit(fmt.Sprintf("iter-%d-%s", kind, universes[u].name), h)
 		}
@@ -1032,6 +1225,20 @@ func gen(a Args, out *Out) {
 		h.add(opIterNext, 0)
 		h.finish()
 		emit("rewind", h)
+	}
+	// 4c. extreme keys: the ends of int64 and their neighbours.  Only with the comparators that
+	// do not subtract (a key difference would overflow: the caller's comparator, not the map)
+	ext := []int64{math.MinInt64, math.MinInt64 + 1, -(1 << 62), -1, 0, 1, 1 << 62, math.MaxInt64 - 1, math.MaxInt64}
+	for c := 0; c < 15*scale; c++ {
+		h := &hist{rng: rng.Fork(), lo: 0, hi: 9, probeP: 50, pool: ext}
+		for i, nops := 0, 20+h.rng.Intn(40); i < nops; i++ {
+			h.randomOp()
+		}
+		h.finish()
+		for len(h.ops)%2 == 0 {
+			h.add(opSize)
+		}
+		emit("extreme-keys", h)
 	}
 	// 5. churn: long put/remove runs over 12..16 keys (a colour-only corruption needs a few hundred
 	// further operations on the same small tree before it becomes a height-bound failure)
